@@ -34,13 +34,19 @@ LEVEL = 'exploration'
 DECIDING = ['tap:_GEVP_solver', 'tap:Corr.GEVP', 'tap:Corr.Eigenvalue', 'tap:Corr.projected', 'tap:Corr.prune',
             'tap:matrix_pencil_method', 'solver_calls_judged', 'vectors_judged', 'vector_fluctuations_judged',
             'projected_values_judged', 'projected_fluctuations_judged', 'sorting_nontrivial_slices_judged',
-            'undefined_slices_judged', 'prune_cases_judged', 'mpm_energies_judged']
+            'undefined_slices_judged', 'prune_cases_judged', 'mpm_energies_judged', 'history_repeats_judged', 'held_results_judged',
+            'input_unchanged_judged', 'projected_variants_judged', 'rejections_judged']
 RULE = ('cases: correlator matrices G(t) = Z F(t) Z^T from N = 2..5 Obs-valued energies (gaps >= 0.15) and generic overlaps '
         '(cond Z < 30), T = 8..24, t0 = 1..T/3, F = exact exponentials or exponentials with a backward part on 1-2 states '
         '(level crossings), symmetric or with an Obs-valued antisymmetric part added, with / without undefined slices, observables on '
         '1-2 ensembles x 1-2 replicas; each matrix goes through method eigh/cholesky x sort Eigenvalue/Eigenvector/None x '
         'vector_obs off (all combinations per case) or on (one combination per case), all states; prune to 1..N-1 states; '
-        'matrix pencil with k = 1..3 on exact k-exponential correlators. non-trivial: at least one (t > t0, state) entry inside the '
+        'matrix pencil with k = 1..3 on exact k-exponential correlators (T down to the limit 2k). Hardening classes: content as list / 3-d array / '
+        '2-d array of Corr / Fortran-ordered / transposed views, numpy-integer t0 / ts / state / Ntrunc / k / p, vectors as list / array / same '
+        'object in both slots; matrices times 1e-8..1e8 and operator normalisations spanning 4 orders; overlaps from a pool of shared Obs; prange / tag / '
+        'gamma_method results / prior symmetrisation stored on the correlator; t0 = 0, ts = t0+1, ts = T-1; ensembles A / A1 / AB and replicas r2 / r10; '
+        'histories A, B, A over different matrices of equal N, T, t0, names (GEVP, Eigenvalue, projected, prune interleaved) with held results and input '
+        'digests re-checked; rejection rows. non-trivial: at least one (t > t0, state) entry inside the '
         'numerical judgement domain was compared with the exact spectrum and the inputs fluctuate; '
         'distinct = digest of (energies, overlaps, T, t0, ts, options)')
 ASSUMPTIONS = ['numerical judgement domain: entries whose expected rounding error eps*cond(G(t0))*lambda_max(t)/lambda_n(t) (eigenvalues) or '
@@ -50,7 +56,10 @@ ASSUMPTIONS = ['numerical judgement domain: entries whose expected rounding erro
                'matrix pencil: tolerance 500 (values) / 3e4 (fluctuations) * eps * s_1/s_k of the shifted Hankel matrix, judged when <= 1e-6',
                'entries of the returned lists at t <= t0 are not judged (the eigen-problem is degenerate there)',
                'the input matrices are produced by derived_observable with the analytic Jacobian (judged by C01); their fluctuations are read back from the Obs',
-               'cond(G(t0)) <= 1e9 by construction (gaps are narrowed when N*t0 is large)']
+               'cond = condition number of the equilibrated matrix D^-1 G(t0) D^-1 + 10 (the algorithms are covariant under a rescaling of the operators; '
+               'observed/bound <= 2.6 with operator scales spanning 1e4); cond <= 1e9 by construction (gaps are narrowed when N*t0 is large)',
+               't0 = 0 is included as a boundary although the quantifier starts at t0 = 1 (the exact identities hold there as well)',
+               'rejection rows only demand that an exception is raised (N = 1, ts <= t0, missing ts, unknown sort, Ntrunc >= N, non-positive G(t0), undefined t0, mpm p / k limits)']
 BUDGET = {'quick': 40, 'thorough': 400}
 
 PE = None
@@ -120,7 +129,7 @@ class SolverMonitor(taps.Monitor):
             ctx.ev()
             ctx.violation('solver:result-shape', {'shape': V.shape, 'N': N})
             return
-        kappa = R.cond_sym(B)
+        kappa = R.cond_for_bounds(B)
         if not np.isfinite(kappa) or kappa > 1e10:
             ctx.count('solver_calls_ill_conditioned')
             return
@@ -143,20 +152,25 @@ class Model:
     pass
 
 
-def rand_chains(rng):
-    """-> (chains for energies, chains for overlaps): lists of (name, idl)."""
-    layout = str(rng.choice(['one', 'one', 'replicas', 'two_ens', 'bare']))
+def rand_idl(rng, step=None):
+    n = int(rng.integers(6, 13))
+    s = int(rng.integers(1, 50))
+    if step is not None:                                    # replicas of one ensemble: common spacing
+        return range(s, s + n * step, step) if rng.random() < 0.5 else [s + step * i for i in range(n)]
+    k = str(rng.choice(['contig', 'strided', 'list']))
+    if k == 'contig':
+        return range(s, s + n)
+    if k == 'strided':
+        st = int(rng.integers(2, 5))
+        return range(s, s + n * st, st)
+    return [s + 2 * i for i in range(n)]
 
-    def idl():
-        n = int(rng.integers(6, 13))
-        k = str(rng.choice(['contig', 'strided', 'list']))
-        s = int(rng.integers(1, 50))
-        if k == 'contig':
-            return range(s, s + n)
-        if k == 'strided':
-            st = int(rng.integers(2, 5))
-            return range(s, s + n * st, st)
-        return [s + 2 * i for i in range(n)]
+
+def rand_chains(rng):
+    """-> (layout, chains for energies, chains for overlaps): lists of (name, idl).  Name traps: ensembles sharing a
+    prefix ('A', 'A1', 'AB') in one matrix, replicas r2 / r10, bare chain names."""
+    layout = str(rng.choice(['one', 'one', 'replicas', 'two_ens', 'bare', 'prefix_ens', 'r2_r10']))
+    idl = lambda: rand_idl(rng)
     ens = [str(x) for x in rng.choice(gen.ENS_POOL, size=2, replace=False)]
     if layout == 'bare':
         ce = [(ens[0], idl())]
@@ -166,8 +180,18 @@ def rand_chains(rng):
         return layout, ce, ce
     if layout == 'replicas':
         reps = sorted(str(x) for x in rng.choice(gen.REP_POOL, size=2, replace=False))
-        ce = [('%s|%s' % (ens[0], r), idl()) for r in reps]
+        st = int(rng.integers(1, 4))
+        ce = [('%s|%s' % (ens[0], r), rand_idl(rng, st)) for r in reps]
         return layout, ce, ce
+    if layout == 'r2_r10':
+        st = int(rng.integers(1, 4))
+        ce = [('A|r10', rand_idl(rng, st)), ('A|r2', rand_idl(rng, st))]
+        return layout, ce, ce
+    if layout == 'prefix_ens':
+        a, b = [('A', 'A1'), ('A1', 'A'), ('A', 'AB'), ('AB', 'A1')][int(rng.integers(0, 4))]
+        if rng.random() < 0.5:
+            return layout, [(a, idl())], [(b, idl())]
+        return layout, [('%s|r1' % a, idl())], [('%s|r1' % b, idl())]
     ce = [('%s|r1' % ens[0], idl())]
     cz = [('%s|r1' % ens[1], idl())]
     return layout, ce, cz
@@ -184,27 +208,66 @@ def rand_spectrum(rng, N, t0):
     return np.concatenate([[E0], E0 + np.cumsum(gaps)])
 
 
-def rand_overlaps(rng, N):
-    for _ in range(200):
-        Z = rng.normal(size=(N, N))
+def rand_overlaps(rng, N, circulant=False):
+    for _ in range(400):
+        if circulant:
+            c = rng.normal(size=N)
+            Z = np.array([[c[(i - n) % N] for n in range(N)] for i in range(N)])
+        else:
+            Z = rng.normal(size=(N, N))
         if np.linalg.cond(Z) < 30 and np.min(np.abs(Z)) > 1e-3:
             return Z
     raise Skip()
 
 
-def make_model(rng, N, T, t0, ts, kind='exp', nonsym=False, nonepat='no', min_defined=None):
-    """kind: 'exp' | 'cross'.  nonepat: 'no' | 'pad' | 'int' | 'many'."""
+def ni(rng, x):
+    """an index / time argument as Python int or as a numpy integer."""
+    if x is None:
+        return None
+    return [int, int, np.int64, np.int32, np.intp, np.uint8][int(rng.integers(0, 6))](x)
+
+
+try:
+    from .C14 import any_digest as fast_digest     # one hash object per call (same coverage as snap.any_digest)
+except Exception:                                  # pragma: no cover
+    from ..snap import any_digest as fast_digest
+
+REPRS = ['list', 'array3d', 'corr2d', 'fortran', 'tview']
+STATES = ['prange', 'tag', 'gm', 'presym']
+
+
+def make_model(rng, N, T, t0, ts, kind='exp', nonsym=False, nonepat='no', min_defined=None, chains=None, scale=None,
+               share=None, rep=None, state=None):
+    """kind: 'exp' | 'cross'.  nonepat: 'no' | 'pad' | 'int' | 'many'.
+    scale: 'unit' | 'global' (matrix times c in 1e-8..1e8) | 'rows' (operator normalisations spanning 4 orders of magnitude).
+    share: overlaps drawn from a pool of N Obs, each used at N matrix positions (circulant Z).
+    rep: representation of the content handed to Corr.  state: things stored on the correlator before it is used."""
     m = Model()
     m.N, m.T, m.t0, m.ts, m.kind, m.nonsym, m.nonepat = N, T, t0, ts, kind, nonsym, nonepat
-    layout, ce, cz = rand_chains(rng)
+    layout, ce, cz = chains if chains is not None else rand_chains(rng)
     m.layout = layout
     m.chains = {n: len(i) for n, i in ce + cz}
+    if share is None:
+        share = bool(rng.random() < 0.15)
+    if scale is None:
+        scale = str(rng.choice(['unit', 'unit', 'global', 'rows', 'rows+global']))
+    if share and 'rows' in scale:
+        scale = 'global'
+    m.scale, m.share = scale, share
+    c = 10.0 ** rng.uniform(-8, 8) if 'global' in scale else 1.0
+    d = 10.0 ** rng.uniform(-2, 2, size=N) if 'rows' in scale else np.ones(N)
+    d = d * np.sqrt(c)
     sig = 10.0 ** rng.uniform(-4, -2)
     Eo = [mk_obs(rng, x, sig, ce) for x in rand_spectrum(rng, N, t0)]
-    Zo = [mk_obs(rng, x, sig * (0.5 + abs(x)), cz) for x in rand_overlaps(rng, N).ravel()]
+    Z0 = rand_overlaps(rng, N, circulant=share) * d[:, None]
+    if share:
+        pool = [mk_obs(rng, Z0[i, 0], sig * (0.3 * d[i] + abs(Z0[i, 0])), cz) for i in range(N)]   # first column = the N distinct numbers
+        Zo = [pool[(i - n) % N] for i in range(N) for n in range(N)]                              # the same objects again and again
+    else:
+        Zo = [mk_obs(rng, Z0[i, n], sig * (0.3 * d[i] + abs(Z0[i, n])), cz) for i in range(N) for n in range(N)]
     m.E = np.array([o.value for o in Eo])
     m.Z = np.array([o.value for o in Zo]).reshape(N, N)
-    if np.min(np.diff(m.E)) < 0.14 or np.linalg.cond(m.Z) > 40:
+    if np.min(np.diff(m.E)) < 0.14 or np.linalg.cond(m.Z / d[:, None]) > 40:
         raise Skip()
     m.b = m.e = None
     if kind == 'cross':
@@ -225,7 +288,8 @@ def make_model(rng, N, T, t0, ts, kind='exp', nonsym=False, nonepat='no', min_de
         qo = mk_obs(rng, float(rng.uniform(0.5, 1.5)), 0.05, ce)
         amp = 10.0 ** rng.uniform(-2.5, -0.5)
         W = rng.normal(size=(T, N, N))
-        W = (W - W.transpose(0, 2, 1)) * amp * np.abs(G).mean(axis=(1, 2))[:, None, None]
+        sd = np.sqrt(np.einsum('tii->ti', G))
+        W = (W - W.transpose(0, 2, 1)) * amp * sd[:, :, None] * sd[:, None, :]
         data = data + [qo]
         J = np.concatenate([J, W[..., None]], axis=3)
         m.q = qo.value
@@ -264,14 +328,55 @@ def make_model(rng, N, T, t0, ts, kind='exp', nonsym=False, nonepat='no', min_de
     undefined -= protected
     m.defined = set(range(T)) - undefined
     m.Gobs = out
-    m.corr = PE.Corr([np.array(out[t]) if t in m.defined else None for t in range(T)])
-    m.dE = {c: np.array([obs_deltas(o, m.chains)[c] for o in Eo]) for c in m.chains}
-    m.dZ = {c: np.array([obs_deltas(o, m.chains)[c] for o in Zo]).reshape(N, N, -1) for c in m.chains}
+    # representation of the content
+    if rep is None:
+        rep = str(rng.choice(REPRS))
+    if rep == 'array3d' and undefined:
+        rep = 'list'
+    if rep == 'tview' and nonsym:
+        rep = 'fortran'
+    m.rep = rep
+    if rep == 'array3d':
+        corr = PE.Corr(np.array(out))
+    elif rep == 'corr2d':
+        arr = np.empty((N, N), dtype=object)
+        for i in range(N):
+            for j in range(N):
+                arr[i, j] = PE.Corr([out[t, i, j] if t in m.defined else None for t in range(T)])
+        corr = PE.Corr(arr)
+    elif rep == 'fortran':
+        corr = PE.Corr([np.asfortranarray(out[t]) if t in m.defined else None for t in range(T)])
+    elif rep == 'tview':
+        corr = PE.Corr([np.array(out[t]).T if t in m.defined else None for t in range(T)])      # transposed views of symmetric matrices
+    else:
+        corr = PE.Corr([np.array(out[t]) if t in m.defined else None for t in range(T)])
+    # state stored on the correlator before use
+    if state is None:
+        state = [x for x in STATES if rng.random() < 0.15]
+    m.state = list(state)
+    if 'presym' in state:
+        corr = corr.matrix_symmetric()
+    if 'gm' in state:
+        corr.gamma_method()
+    if 'prange' in state:
+        corr.prange = [int(rng.integers(0, 3)), int(rng.integers(3, T))]
+    if 'tag' in state:
+        corr.tag = 'state %d of something else' % int(rng.integers(0, N))
+    m.corr = corr
+    m.dE = {c_: np.array([obs_deltas(o, m.chains)[c_] for o in Eo]) for c_ in m.chains}
+    m.dZ = {c_: np.array([obs_deltas(o, m.chains)[c_] for o in Zo]).reshape(N, N, -1) for c_ in m.chains}
     m._dG = None
     m.kappa = {}
     m.fluctuates = any(np.any(v != 0) for v in m.dE.values())
     m.key = digest('model', m.E, m.Z, T, t0, ts, kind, nonsym, sorted(undefined), repr(m.b), repr(m.e))
+    m.digest0 = fast_digest(m.corr)
     return m
+
+
+def judge_unchanged(ctx, m, what):
+    """the input correlator (content, fluctuations, prange, tag) is what it was when it was built."""
+    ctx.count('input_unchanged_judged')
+    ctx.require(fast_digest(m.corr) == m.digest0, 'mutation:input-correlator-changed', dict(what=what, N=m.N, T=m.T, rep=m.rep, stored=m.state))
 
 
 def dG(m):
@@ -292,7 +397,7 @@ def dG(m):
 
 def kappa(m, t0):
     if t0 not in m.kappa:
-        m.kappa[t0] = R.cond_sym(m.G[t0])
+        m.kappa[t0] = R.cond_for_bounds(m.G[t0])
     return m.kappa[t0]
 
 
@@ -396,10 +501,12 @@ def judge_vector_fluctuations(ctx, m, t0, v, l, s, rtol, what):
         ctx.violation('vector_obs:chain-names', dict(what, got=names, exp=sorted(m.chains)))
         return
     ctx.count('vector_fluctuations_judged')
-    exp = {c: R.dual_vector_response(m.Z, m.F[t0], m.dF[t0], m.dE[c], m.dZ[c])[:, l, :] for c in m.chains}
+    # components are compared in units of 1/sqrt(G_ii(t0)) (invariant under a rescaling of the operators)
+    u = np.sqrt(np.diag(m.G[t0]))[:, None]
+    exp = {c: u * R.dual_vector_response(m.Z, m.F[t0], m.dF[t0], m.dE[c], m.dZ[c])[:, l, :] for c in m.chains}
     scale = max(max(float(np.max(np.abs(e))) for e in exp.values()), 1e-300)   # an exact zero on one chain is a cancellation
     for c in m.chains:
-        got = np.array([obs_deltas(x, m.chains)[c] for x in v])
+        got = u * np.array([obs_deltas(x, m.chains)[c] for x in v])
         ctx.close(s * got, exp[c], 'vector_obs:vector-fluctuations', 'chain ' + c, rtol=rtol, scale=scale, detail=what)
 
 
@@ -509,7 +616,36 @@ def judge_projected(ctx, m, t0, ts, sort, n, corr, vo, fvec, what):
             ctx.nontrivial.add(digest(m.key, 'proj', sort, vo, n))
 
 
-def run_gevp(ctx, m, sort, method, vo, use_ts=True):
+def hold(m, what, obj):
+    """keep a result together with its digest: it must still be the same when the case ends."""
+    if not hasattr(m, 'held'):
+        m.held = []
+    m.held.append((what, obj, fast_digest(obj)))
+
+
+def judge_held(ctx, m):
+    for what, obj, d in getattr(m, 'held', []):
+        ctx.count('held_results_judged')
+        ctx.require(fast_digest(obj) == d, 'aliasing:earlier-result-changed-by-later-call', dict(result=what, N=m.N, T=m.T))
+    m.held = []
+
+
+def judge_no_shared_memory(ctx, vecs, sort, what):
+    """vectors of different (state, t) are different vectors: they must not live in overlapping memory."""
+    arrs = []
+    for n in range(len(vecs)):
+        for v in ([vecs[n]] if sort is None else vecs[n]):
+            if isinstance(v, np.ndarray) and v.dtype != object:
+                arrs.append(v)
+    ctx.ev()
+    for i in range(len(arrs)):
+        for j in range(i):
+            if np.may_share_memory(arrs[i], arrs[j]) and np.shares_memory(arrs[i], arrs[j]):
+                ctx.violation('aliasing:vectors-of-different-states-or-times-share-memory', what)
+                return
+
+
+def run_gevp(ctx, m, sort, method, vo, rng=None):
     """One GEVP call with everything that is judged on it. -> sign-aligned float vectors [state][t] (None where unjudged)."""
     C = m.corr
     t0, ts, N, T = m.t0, m.ts, m.N, m.T
@@ -520,11 +656,23 @@ def run_gevp(ctx, m, sort, method, vo, use_ts=True):
         kw['vector_obs'] = True
     need_ts = sort in ('Eigenvector', None)
     ts_arg = ts if need_ts else None
-    what = dict(sort=sort, method=method, vector_obs=vo, N=N, T=T, t0=t0, ts=ts_arg, model=m.kind, nonsym=m.nonsym, none=m.nonepat)
+    if sort == 'Eigenvalue' and rng is not None and rng.random() < 0.2:
+        ts_arg = ts                                         # documented: no effect when sorting by eigenvalue
+    what = dict(sort=sort, method=method, vector_obs=vo, N=N, T=T, t0=t0, ts=ts_arg, model=m.kind, nonsym=m.nonsym, none=m.nonepat,
+                scale=m.scale, rep=m.rep, stored=m.state, shared_overlaps=m.share)
     ctx.cell('N%d' % N, method or 'default', str(sort), 'obs' if vo else 'float', 'nonsym' if m.nonsym else 'sym', m.nonepat)
-    vecs = C.GEVP(t0, ts=ts_arg, sort=sort, **kw)
+    ctx.cell('input', m.scale, m.rep, 't0=0' if t0 == 0 else ('ts=t0+1' if ts == t0 + 1 else ('ts=T-1' if ts == T - 1 else 'ts')))
+    for st in m.state:
+        ctx.cell('state', st, str(sort))
+    if rng is not None:
+        vecs = C.GEVP(ni(rng, t0), ts=ni(rng, ts_arg), sort=sort, **kw)
+    else:
+        vecs = C.GEVP(t0, ts=ts_arg, sort=sort, **kw)
     if not judge_structure(ctx, m, t0, sort, vecs, what):
         return None, vecs
+    hold(m, 'GEVP(sort=%s, method=%s, vector_obs=%s)' % (sort, method, vo), vecs)
+    if not vo:
+        judge_no_shared_memory(ctx, vecs, sort, what)
     aligned = [[None] * T for _ in range(N)]
     times = [ts] if sort is None else [t for t in range(t0 + 1, T) if t in m.defined]
     for t in times:
@@ -559,26 +707,69 @@ def float_vectors(vecs, sort, n):
     return [None if v is None else vals(v) for v in vecs[n]]
 
 
+def pick_times(rng, T):
+    """t0 = 1..T/3 (and the boundary t0 = 0), ts between t0 + 1 (minimal) and the last timeslice."""
+    t0 = 0 if rng.random() < 0.08 else int(rng.integers(1, T // 3 + 1))
+    r = rng.random()
+    if r < 0.2:
+        ts = t0 + 1
+    elif r < 0.3:
+        ts = T - 1
+    else:
+        ts = int(rng.integers(t0 + 1, min(T - 1, t0 + 4) + 1))
+    return t0, ts
+
+
+def projected_variant(ctx, rng, m, sort, n, vecs, vo, what):
+    """the same projection requested in another way: same object in both slots, list + array, contiguous copy."""
+    C = m.corr
+    vec = vecs[n]
+    fv = None if vo else float_vectors(vecs, sort, n)
+    before = fast_digest(vec)
+    if sort is None:
+        how = str(rng.choice(['same-object-twice', 'list+array', 'array+list', 'contiguous-copy']))
+        if how == 'same-object-twice':
+            pr = C.projected(vec, vec)
+        elif how == 'list+array':
+            pr = C.projected([vec] * m.T, vec)
+        elif how == 'array+list':
+            pr = C.projected(vec, [vec] * m.T)
+        else:
+            pr = C.projected(np.array(list(vec), dtype=np.asarray(vec).dtype))
+    else:
+        how = str(rng.choice(['same-object-twice', 'copied-list', 'explicit-right']))
+        if how == 'same-object-twice':
+            pr = C.projected(vec, vec)
+        elif how == 'copied-list':
+            pr = C.projected(list(vec))
+        else:
+            pr = C.projected(vec, vector_r=list(vec))
+    ctx.cell('projected', how, 'obs' if vo else 'float')
+    ctx.count('projected_variants_judged')
+    judge_projected(ctx, m, m.t0, m.ts, sort, n, pr, vo, fv, dict(what, via='projected:' + how))
+    ctx.require(fast_digest(vec) == before, 'mutation:projected-changes-its-vector-argument', dict(what, how=how))
+
+
 def case_gevp_float(ctx, rng, N, nonsym, nonepat, kind):
     T = int(rng.integers(8, 25))
-    t0 = int(rng.integers(1, T // 3 + 1))
-    ts = int(rng.integers(t0 + 1, min(T - 1, t0 + 4) + 1))
+    t0, ts = pick_times(rng, T)
     m = make_model(rng, N, T, t0, ts, kind, nonsym, nonepat)
     if kappa(m, t0) > 1e9:
         raise Skip()
     C = m.corr
-    ctx.equal(bool(C.is_matrix_symmetric()), not nonsym, 'input:is_matrix_symmetric', 'symmetric input recognised / antisymmetric part seen',
-              detail=dict(mirrored=m.mirrored))
+    ctx.equal(bool(C.is_matrix_symmetric()), (not nonsym) or 'presym' in m.state, 'input:is_matrix_symmetric',
+              'symmetric input recognised / antisymmetric part seen', detail=dict(mirrored=m.mirrored, stored=m.state, scale=m.scale))
     res = {}
     for method in ('eigh', 'cholesky', None):
         for sort in ('Eigenvalue', 'Eigenvector', None):
             if method is None and rng.random() < 0.6:
                 continue
-            aligned, vecs = run_gevp(ctx, m, sort, method, False)
+            aligned, vecs = run_gevp(ctx, m, sort, method, False, rng)
             if aligned is None:
                 continue
             res[(method, sort)] = aligned
-            what = dict(sort=sort, method=method, vector_obs=False, N=N, T=T, t0=t0, ts=ts, model=m.kind, nonsym=nonsym, none=nonepat)
+            what = dict(sort=sort, method=method, vector_obs=False, N=N, T=T, t0=t0, ts=ts, model=m.kind, nonsym=nonsym, none=nonepat,
+                        scale=m.scale, rep=m.rep, stored=m.state)
             kw = {} if method is None else {'method': method}
             ts_arg = ts if sort != 'Eigenvalue' else None
             states = list(range(N)) if ctx.tier != 'quick' or N <= 3 else sorted(int(x) for x in rng.choice(N, size=2, replace=False))
@@ -586,9 +777,11 @@ def case_gevp_float(ctx, rng, N, nonsym, nonepat, kind):
                 pr = C.projected(vecs[n])
                 judge_projected(ctx, m, t0, ts, sort, n, pr, False, float_vectors(vecs, sort, n), dict(what, via='projected'))
             n = int(rng.integers(0, N))
-            ev = C.Eigenvalue(t0, ts=ts_arg, state=n, sort=sort, **kw)
+            projected_variant(ctx, rng, m, sort, n, vecs, False, what)
+            ev = C.Eigenvalue(ni(rng, t0), ts=ni(rng, ts_arg), state=ni(rng, n), sort=sort, **kw)
             judge_projected(ctx, m, t0, ts, sort, n, ev, False, float_vectors(vecs, sort, n), dict(what, via='Eigenvalue'))
-            one = C.GEVP(t0, ts=ts_arg, sort=sort, state=n, **kw)
+            hold(m, 'Eigenvalue', ev)
+            one = C.GEVP(t0, ts=ts_arg, sort=sort, state=ni(rng, n), **kw)
             same = np.array_equal(vals(one), vals(vecs[n])) if sort is None else \
                 all((a is None and b is None) or (a is not None and b is not None and np.array_equal(a, b)) for a, b in zip(one, vecs[n]))
             ctx.require(same, 'gevp:state-argument-selects-another-vector', dict(what, state=n))
@@ -606,24 +799,26 @@ def case_gevp_float(ctx, rng, N, nonsym, nonepat, kind):
                 e = R.err_vector(kap, lam_at(m, t0, t), l)
                 bound(ctx, float(np.max(np.abs(coeffs(m, t0, a[n][t] - b[n][t])))), 1e-12 + 2 * FV * e,
                       'methods:eigh-and-cholesky-vectors-differ', sort=sort, state=n, t=t, N=N, t0=t0)
+    judge_held(ctx, m)
+    judge_unchanged(ctx, m, 'GEVP / Eigenvalue / projected, vector_obs=False')
     ctx.sample({'N': N, 'T': T, 't0': t0, 'ts': ts, 'E': m.E, 'cond_G0': kap, 'model': kind, 'nonsym': nonsym, 'undefined': sorted(set(range(T)) - m.defined),
-                'layout': m.layout})
+                'layout': m.layout, 'scale': m.scale, 'rep': m.rep, 'state': m.state})
 
 
 def case_gevp_obs(ctx, rng, N, sort, nonsym, nonepat, idx):
     T = int(rng.integers(8, 25)) if N < 5 or ctx.tier != 'quick' else int(rng.integers(8, 17))
-    t0 = int(rng.integers(1, T // 3 + 1))
-    ts = int(rng.integers(t0 + 1, min(T - 1, t0 + 4) + 1))
+    t0, ts = pick_times(rng, T)
     kind = 'cross' if (sort == 'Eigenvector' and rng.random() < 0.7) or rng.random() < 0.25 else 'exp'
     m = make_model(rng, N, T, t0, ts, kind, nonsym, nonepat)
     if kappa(m, t0) > 1e9:
         raise Skip()
     method = [None, 'cholesky', 'eigh'][idx % 3]
-    aligned, vecs = run_gevp(ctx, m, sort, method, True)
+    aligned, vecs = run_gevp(ctx, m, sort, method, True, rng)
     if aligned is None:
         return
     C = m.corr
-    what = dict(sort=sort, method=method, vector_obs=True, N=N, T=T, t0=t0, ts=ts, model=m.kind, nonsym=nonsym, none=nonepat)
+    what = dict(sort=sort, method=method, vector_obs=True, N=N, T=T, t0=t0, ts=ts, model=m.kind, nonsym=nonsym, none=nonepat,
+                scale=m.scale, rep=m.rep, stored=m.state)
     ts_arg = ts if sort != 'Eigenvalue' else None
     kw = {} if method is None else {'method': method}
     states = list(range(N)) if ctx.tier != 'quick' or N <= 3 else sorted(int(x) for x in rng.choice(N, size=3, replace=False))
@@ -631,10 +826,14 @@ def case_gevp_obs(ctx, rng, N, sort, nonsym, nonepat, idx):
         pr = C.projected(vecs[n])
         judge_projected(ctx, m, t0, ts, sort, n, pr, True, None, dict(what, via='projected'))
     n = int(rng.integers(0, N))
-    ev = C.Eigenvalue(t0, ts=ts_arg, state=n, sort=sort, vector_obs=True, **kw)
+    if idx % 2 == 0:
+        projected_variant(ctx, rng, m, sort, n, vecs, True, what)
+    ev = C.Eigenvalue(ni(rng, t0), ts=ni(rng, ts_arg), state=ni(rng, n), sort=sort, vector_obs=True, **kw)
     judge_projected(ctx, m, t0, ts, sort, n, ev, True, None, dict(what, via='Eigenvalue'))
+    judge_held(ctx, m)
+    judge_unchanged(ctx, m, 'GEVP / Eigenvalue / projected, vector_obs=True')
     ctx.sample({'N': N, 'T': T, 't0': t0, 'ts': ts, 'E': m.E, 'cond_G0': kappa(m, t0), 'model': kind, 'sort': sort, 'vector_obs': True,
-                'chains': m.chains})
+                'chains': m.chains, 'scale': m.scale, 'rep': m.rep, 'state': m.state})
 
 
 # ------------------------------------------------------------------------------------------
@@ -646,19 +845,25 @@ def case_prune(ctx, rng, N, nonepat, idx):
     kind = 'cross' if rng.random() < 0.2 else 'exp'
     nonsym = bool(rng.random() < 0.3)
     t0b = int(rng.integers(1, T // 3 + 1))                  # t0 of the GEVP on the pruned matrix
-    m = make_model(rng, N, T, t0, ts, kind, nonsym, nonepat, min_defined={t0b})
-    kap = kappa(m, t0)
-    if kap > 1e9:
+    m = make_model(rng, N, T, t0, ts, kind, nonsym, nonepat, min_defined={t0b}, state=[x for x in STATES[:3] if rng.random() < 0.15])
+    if kappa(m, t0) > 1e9:
         raise Skip()
-    Ntrunc = int(rng.integers(1, N))
+    do_prune(ctx, rng, m, int(rng.integers(1, N)), t0b, idx)
+    judge_held(ctx, m)
+    judge_unchanged(ctx, m, 'prune')
+
+
+def do_prune(ctx, rng, m, Ntrunc, t0b, idx):
+    N, T, t0, ts, kind, nonsym, nonepat = m.N, m.T, m.t0, m.ts, m.kind, m.nonsym, m.nonepat
+    kap = kappa(m, t0)
     C = m.corr
-    what = dict(N=N, Ntrunc=Ntrunc, T=T, t0proj=t0, tproj=ts, model=kind, nonsym=nonsym, none=nonepat)
+    what = dict(N=N, Ntrunc=Ntrunc, T=T, t0proj=t0, tproj=ts, model=kind, nonsym=nonsym, none=nonepat, scale=m.scale, rep=m.rep, stored=m.state)
     ctx.cell('prune', 'N%d' % N, 'to%d' % Ntrunc, m.nonepat)
-    kw = dict(tproj=ts, t0proj=t0)
+    kw = dict(tproj=ni(rng, ts), t0proj=ni(rng, t0))
     if idx % 4 == 3:
         kw['basematrix'] = C
     try:
-        P = C.prune(Ntrunc, **kw)
+        P = C.prune(ni(rng, Ntrunc), **kw)
     except (ValueError, TypeError) as e:
         if len(m.defined) < T and ('matmul' in str(e) or 'NoneType' in str(e)):
             ctx.ev()
@@ -669,6 +874,7 @@ def case_prune(ctx, rng, N, nonepat, idx):
         ctx.ev()
         ctx.violation('prune:shape', dict(what, got_T=getattr(P, 'T', None), got_N=getattr(P, 'N', None)))
         return
+    hold(m, 'prune', P)
     lam_s = lam_at(m, t0, ts)
     kept = R.order_at(m.F, t0, ts)[:Ntrunc]                  # states with the largest eigenvalues at tproj = lowest energies
     ev_s = max(R.err_vector(kap, lam_s, l) for l in kept)
@@ -702,7 +908,7 @@ def case_prune(ctx, rng, N, nonepat, idx):
         # fluctuations at fixed vectors: v_i^T dG(t) v_j
         for c, arr in dg.items():
             exp_d = np.einsum('ai,abc,bj->ijc', V, arr[t], V)
-            got_d = np.array([[obs_deltas(item[i, j], m.chains)[c] for j in range(Ntrunc)] for i in range(Ntrunc)])
+            got_d = np.array([[obs_deltas(item[i, j] if item.ndim == 2 else item[0], m.chains)[c] for j in range(Ntrunc)] for i in range(Ntrunc)])
             scale = float(np.einsum('ai,ab,bj->ij', np.abs(Vall), np.max(np.abs(arr[t]), axis=2), np.abs(Vall)).max())
             ctx.close(got_d, exp_d, 'prune:fluctuations-are-not-v_i^T-dG-v_j', 't=%d chain %s' % (t, c),
                       rtol=1e-11 + tolv, scale=max(scale, 1e-300), detail=what)
@@ -718,7 +924,7 @@ def case_prune(ctx, rng, N, nonepat, idx):
         sortb = 'Eigenvalue'
     Fk = m.F[:, kept]
     Gp = np.array([np.diag(Fk[t] / Fk[t0]) for t in range(T)])   # exact pruned matrix (central values)
-    kap_b = R.cond_sym(Gp[t0b])
+    kap_b = R.cond_for_bounds(Gp[t0b])
     mu = m.F / m.F[t0][None, :]
     for n in range(Ntrunc):
         evc = P.Eigenvalue(t0b, ts=tsb if sortb == 'Eigenvector' else None, state=n, sort=sortb, vector_obs=vo)
@@ -765,35 +971,201 @@ def case_prune(ctx, rng, N, nonepat, idx):
 
 
 # ------------------------------------------------------------------------------------------
+# histories: several *different* matrices that agree in everything a cheap cache key could look at
+def case_history(ctx, rng, N, idx):
+    T = int(rng.integers(8, 17))
+    t0, ts = pick_times(rng, T)
+    if ts > T - 2:
+        ts = t0 + 1
+    chains = rand_chains(rng)
+    rep_ = str(rng.choice(REPRS))
+    K = 2 if N > 3 or rng.random() < 0.6 else 3
+    ms = []
+    for j in range(K):
+        m = make_model(rng, N, T, t0, ts, str(rng.choice(['exp', 'cross'])), bool(rng.random() < 0.3), 'no', chains=chains,
+                       rep=rep_, state=[], scale=str(rng.choice(['unit', 'global'])), min_defined=set(range(T)))
+        if kappa(m, t0) > 1e9:
+            raise Skip()
+        m.last = None
+        ms.append(m)
+    ctx.cell('history', 'N%d' % N, 'K%d' % K)
+
+    def op_gevp(m, sort, method, vo=False):
+        aligned, vecs = run_gevp(ctx, m, sort, method, vo, rng)
+        if aligned is not None:
+            m.last = (sort, vecs, vo)
+        return vecs
+
+    def op_eigenvalue(m):
+        sort = [None, 'Eigenvalue', 'Eigenvector'][int(rng.integers(0, 3))]
+        n = int(rng.integers(0, N))
+        ev = m.corr.Eigenvalue(ni(rng, t0), ts=ni(rng, ts if sort != 'Eigenvalue' else None), state=ni(rng, n), sort=sort)
+        own = m.corr.GEVP(t0, ts=ts if sort != 'Eigenvalue' else None, sort=sort)
+        judge_projected(ctx, m, t0, ts, sort, n, ev, False, float_vectors(own, sort, n), dict(via='Eigenvalue in a history', N=N, T=T, t0=t0, sort=sort))
+        hold(m, 'Eigenvalue', ev)
+
+    def op_projected(m):
+        if m.last is None:
+            op_gevp(m, 'Eigenvalue', 'eigh')
+        if m.last is None:
+            return
+        sort, vecs, vo = m.last
+        n = int(rng.integers(0, N))
+        pr = m.corr.projected(vecs[n])
+        judge_projected(ctx, m, t0, ts, sort, n, pr, vo, None if vo else float_vectors(vecs, sort, n),
+                        dict(via='projected in a history', N=N, T=T, t0=t0, sort=sort))
+        hold(m, 'projected', pr)
+
+    def op_prune(m):
+        do_prune(ctx, rng, m, int(rng.integers(1, N)), max(1, t0), int(rng.integers(0, 8)))
+
+    # A, B, A with identical arguments (in both orders over the cases), then a random walk over the operations
+    sort0 = [None, 'Eigenvalue', 'Eigenvector'][idx % 3]
+    method0 = ['eigh', 'cholesky'][(idx // 3) % 2]
+    first = ms[idx % 2]
+    second = ms[1 - idx % 2]
+    r1 = op_gevp(first, sort0, method0)
+    d1 = fast_digest(r1)
+    op_gevp(second, sort0, method0)
+    r3 = op_gevp(first, sort0, method0)
+    ctx.count('history_repeats_judged')
+    ctx.require(fast_digest(r3) == d1, 'history:GEVP-result-depends-on-calls-made-in-between', dict(N=N, T=T, t0=t0, sort=sort0, method=method0))
+    ops = [op_eigenvalue, op_projected, op_prune] if N >= 3 else [op_eigenvalue, op_projected]
+    for step in range(int(rng.integers(4, 9))):
+        m = ms[int(rng.integers(0, K))]
+        r = rng.random()
+        if r < 0.4:
+            vo = bool(N <= 3 and rng.random() < 0.2)
+            op_gevp(m, [None, 'Eigenvalue', 'Eigenvector'][int(rng.integers(0, 3))], [None, 'eigh', 'cholesky'][int(rng.integers(0, 3))], vo)
+        else:
+            ops[int(rng.integers(0, len(ops)))](m)
+    r4 = op_gevp(first, sort0, method0)
+    ctx.count('history_repeats_judged')
+    ctx.require(fast_digest(r4) == d1, 'history:GEVP-result-depends-on-calls-made-in-between', dict(N=N, T=T, t0=t0, sort=sort0, method=method0, at='end'))
+    for m in ms:
+        judge_held(ctx, m)
+        judge_unchanged(ctx, m, 'history')
+    ctx.sample({'history': dict(N=N, T=T, t0=t0, ts=ts, K=K, chains=ms[0].chains, rep=rep_), 'E': [m.E for m in ms]})
+
+
+# ------------------------------------------------------------------------------------------
+# inputs outside the domain must be refused, not answered
+def must_raise(ctx, row, fn, **detail):
+    ctx.count('rejections_judged')
+    ctx.ev()
+    try:
+        r = fn()
+    except Exception as e:
+        ctx.cell('reject', row, type(e).__name__)
+        return
+    ctx.violation('reject:%s:accepted' % row, dict(detail, returned=repr(r)[:200]))
+
+
+def case_reject(ctx, rng, idx):
+    N = int(rng.integers(2, 5))
+    T = int(rng.integers(8, 13))
+    t0, ts = int(rng.integers(1, 3)), int(rng.integers(3, 6))
+    m = make_model(rng, N, T, t0, ts, 'exp', False, 'no', state=[], rep='list')
+    C = m.corr
+    single = C.item(0, 0)                                   # N = 1
+    v = np.ones(N)
+    rows = [
+        ('N=1:GEVP', lambda: single.GEVP(t0)),
+        ('N=1:Eigenvalue', lambda: single.Eigenvalue(t0)),
+        ('N=1:prune', lambda: single.prune(1)),
+        ('N=1:projected', lambda: single.projected(v)),
+        ('ts=t0:sort-None', lambda: C.GEVP(ni(rng, t0), ts=ni(rng, t0), sort=None)),
+        ('ts<t0:sort-Eigenvector', lambda: C.GEVP(ni(rng, ts), ts=ni(rng, t0), sort='Eigenvector')),
+        ('ts=t0:Eigenvalue-sort-None', lambda: C.Eigenvalue(t0, ts=t0, sort=None)),
+        ('ts-missing:sort-None', lambda: C.GEVP(t0, sort=None)),
+        ('ts-missing:sort-Eigenvector', lambda: C.GEVP(t0, sort='Eigenvector')),
+        ('unknown-sort', lambda: C.GEVP(t0, ts=ts, sort='eigenvalue')),
+        ('prune:Ntrunc=N', lambda: C.prune(ni(rng, N), tproj=ts, t0proj=t0)),
+        ('prune:Ntrunc>N', lambda: C.prune(N + 1, tproj=ts, t0proj=t0)),
+        ('projected:vector-of-wrong-length', lambda: C.projected(np.ones(N + 1))),
+        ('mpm:p>=number-of-points', lambda: PE.mpm.matrix_pencil_method([single[t] for t in range(T)], k=1, p=T)),
+        ('mpm:k>p', lambda: PE.mpm.matrix_pencil_method([single[t] for t in range(T)], k=3, p=2)),
+        ('mpm:k>N-p', lambda: PE.mpm.matrix_pencil_method([single[t] for t in range(T)], k=3, p=T - 2)),
+    ]
+    neg = PE.Corr([-1.0 * C.content[t] for t in range(T)])
+    rows.append(('G(t0)-negative-definite', lambda: neg.GEVP(t0)))
+    und = PE.Corr([C.content[t] if t != t0 else None for t in range(T)])
+    rows.append(('t0-undefined:sort-None', lambda: und.GEVP(t0, ts=ts, sort=None)))
+    for row, fn in rows:
+        must_raise(ctx, row, fn, N=N, T=T, t0=t0, ts=ts)
+    judge_unchanged(ctx, m, 'rejected calls')
+    ctx.nontrivial.add(digest('reject', m.key))
+
+
+# ------------------------------------------------------------------------------------------
 # M3: matrix pencil
 def case_mpm(ctx, rng, k, idx):
-    T = int(rng.integers(8, 25))
+    r = rng.random()
+    if r < 0.15:
+        T = 2 * k                                           # the limit: k exponentials, 2k points (p = k, a k x k pencil)
+    elif r < 0.25:
+        T = 2 * k + 1
+    else:
+        T = int(rng.integers(max(8, 2 * k), 25))
     E = rand_spectrum(rng, k, 1)
-    A = rng.uniform(0.3, 2.0, size=k) * rng.choice([1.0, 1.0, 1.0, -1.0], size=k)
     layout, ce, cz = rand_chains(rng)
     chains = {n: len(i) for n, i in ce + cz}
     sig = 10.0 ** rng.uniform(-4, -2)
+    amp = str(rng.choice(['generic', 'generic', 'scaled', 'spread', 'same-object']))
+    c0 = 10.0 ** rng.uniform(-8, 8) if amp == 'scaled' else 1.0
+    A = rng.uniform(0.3, 2.0, size=k) * rng.choice([1.0, 1.0, 1.0, -1.0], size=k) * c0
+    if amp == 'spread':
+        A = A * 10.0 ** rng.uniform(-1.5, 1.5, size=k)
     Eo = [mk_obs(rng, x, sig, ce) for x in E]
-    Ao = [mk_obs(rng, x, sig, cz) for x in A]
+    if amp == 'same-object':
+        a1 = mk_obs(rng, A[0], sig * abs(A[0]), cz)
+        Ao = [a1] * k                                       # exactly equal overlaps: the same Obs k times in the parameter list
+    else:
+        Ao = [mk_obs(rng, x, sig * abs(x), cz) for x in A]
     E = np.array([o.value for o in Eo])
     A = np.array([o.value for o in Ao])
     c, J = R.single_correlator(E, A, T)
     co = PE.derived_observable(lambda x, **kw: R.single_correlator(x[:k], x[k:], T)[0], Eo + Ao, man_grad=J)
-    how = idx % 3
-    data = list(co) if how != 1 else [o for o in co]
+    how = ['list', 'ndarray', 'list-default-k', 'fortran-view'][idx % 4]
+    if how == 'ndarray':
+        data = np.array(co)
+    elif how == 'fortran-view':
+        big = np.empty((T, 2), dtype=object)
+        big[:, 0] = co
+        big[:, 1] = co[::-1]
+        data = big[:, 0]                                    # strided view of a 2-d object array
+    else:
+        data = list(co)
     p = None
     if rng.random() < 0.5:
         p = int(rng.integers(max(k, T // 3), T - k + 1))
         if T <= p or T - p < k or p < k:
             p = None
-    ctx.cell('mpm', 'k%d' % k, 'p' if p is not None else 'default')
-    kw = dict(k=k)
+    ctx.cell('mpm', 'k%d' % k, 'p' if p is not None else 'default', 'T=2k' if T == 2 * k else ('T=2k+1' if T == 2 * k + 1 else 'T'))
+    ctx.cell('mpm-input', how, amp)
+    kw = dict(k=ni(rng, k))
     if p is not None:
-        kw['p'] = p
-    if how == 2 and k == 1 and p is None:
+        kw['p'] = ni(rng, p)
+    if how == 'list-default-k' and k == 1 and p is None:
         kw = {}
-    en = PE.mpm.matrix_pencil_method(data, **kw)
-    what = dict(k=k, T=T, p=p, E=E)
+    d0 = fast_digest(data)
+    if idx % 5 == 4:
+        # another correlator of the same length on the same chains in between: A, B, A
+        first = PE.mpm.matrix_pencil_method(data, **kw)
+        E2 = rand_spectrum(rng, k, 1)
+        other = [mk_obs(rng, float(np.sum(np.exp(-E2 * t))), sig, ce) for t in range(T)]
+        try:
+            PE.mpm.matrix_pencil_method(other, **kw)
+        except Exception:
+            pass
+        en = PE.mpm.matrix_pencil_method(data, **kw)
+        ctx.count('history_repeats_judged')
+        ctx.require(fast_digest(en) == fast_digest(first), 'history:mpm-result-depends-on-calls-made-in-between', dict(k=k, T=T, p=p))
+    else:
+        en = PE.mpm.matrix_pencil_method(data, **kw)
+    ctx.count('input_unchanged_judged')
+    ctx.require(fast_digest(data) == d0, 'mutation:mpm-changes-its-input', dict(k=k, T=T, p=p, how=how))
+    what = dict(k=k, T=T, p=p, E=E, amplitudes=amp, input=how)
     if len(en) != k or not all(is_obs(x) for x in en):
         ctx.ev()
         ctx.violation('mpm:result-shape', dict(what, got=len(en)))
@@ -859,6 +1231,9 @@ def plan(tier):
     for N in (3, 4, 5):
         for npat in NONE_PATS:
             p.append(('prune:%d:%s' % (N, npat), 4 if q else 80))
+    p.append(('reject', 2 if q else 20))
+    for N in (2, 3, 4):
+        p.append(('hist:%d' % N, 6 if q else 100))
     for N in (2, 3, 4, 5):
         for sort in ('Eigenvalue', 'Eigenvector', 'None'):
             for sym in ('sym', 'nonsym'):
@@ -882,5 +1257,9 @@ def run_case(ctx, kind, idx, rng):
         case_prune(ctx, rng, int(k[1]), k[2], idx)
     elif k[0] == 'mpm':
         case_mpm(ctx, rng, int(k[1]), idx)
+    elif k[0] == 'hist':
+        case_history(ctx, rng, int(k[1]), idx)
+    elif k[0] == 'reject':
+        case_reject(ctx, rng, idx)
     else:
         raise ValueError(kind)
